@@ -44,6 +44,71 @@ func fieldLoadName(v ssa.Value) string {
 	return ""
 }
 
+// allPathsStoreMismatch: every path from b to a return stores an ErrChecksumMismatch into an Err field.
+func allPathsStoreMismatch(b *ssa.BasicBlock) bool {
+	seen := map[*ssa.BasicBlock]bool{}
+	var walk func(x *ssa.BasicBlock) bool
+	walk = func(x *ssa.BasicBlock) bool {
+		if seen[x] {
+			return true
+		}
+		seen[x] = true
+		for _, ins := range x.Instrs {
+			if st, ok := ins.(*ssa.Store); ok {
+				if fv := fieldOfAddr(st.Addr); fv != nil && fv.Name() == "Err" {
+					if mi, ok := st.Val.(*ssa.MakeInterface); ok && strings.Contains(mi.X.Type().String(), "ErrChecksumMismatch") {
+						return true
+					}
+				}
+			}
+			if _, ok := ins.(*ssa.Return); ok {
+				return false
+			}
+		}
+		for _, s := range x.Succs {
+			if !walk(s) {
+				return false
+			}
+		}
+		return len(x.Succs) > 0
+	}
+	return walk(b)
+}
+
+// fieldBase returns the struct (pointer) value whose field v loads.
+func fieldBase(v ssa.Value) ssa.Value {
+	switch x := v.(type) {
+	case *ssa.UnOp:
+		if fa, ok := x.X.(*ssa.FieldAddr); ok && x.Op == token.MUL {
+			return fa.X
+		}
+	case *ssa.Field:
+		return x.X
+	}
+	return nil
+}
+
+// paramIndexOf: index of the parameter base denotes (directly, loaded from or being its spill slot), or -1.
+func paramIndexOf(fn *ssa.Function, base ssa.Value) int {
+	if u, ok := base.(*ssa.UnOp); ok && u.Op == token.MUL {
+		base = u.X
+	}
+	if al, ok := base.(*ssa.Alloc); ok {
+		for _, ref := range *al.Referrers() {
+			if st, ok := ref.(*ssa.Store); ok && st.Addr == al {
+				base = st.Val
+				break
+			}
+		}
+	}
+	for i, prm := range fn.Params {
+		if prm == base {
+			return i
+		}
+	}
+	return -1
+}
+
 // ---------------------------------------------------------------- FD-01
 
 func runFD01(p *Prog, r *RuleRun) {
@@ -602,20 +667,55 @@ func runFD05(p *Prog, r *RuleRun) {
 		r.Unknown("anchor:verify", "?", "(*verifier.LogStore).verify not found")
 	} else {
 		found := false
-		for _, ls := range countedLoops(vf) {
-			usedAsIdx := false
-			for _, ref := range *ls.phi.Referrers() {
-				if c, ok := ref.(ssa.CallInstruction); ok && eventName(c) == "raft.LogStore.GetLog" {
-					usedAsIdx = true
+		// the loop may live in verify itself or in a helper of the verifier package it calls with report.Range
+		cands := []*ssa.Function{vf}
+		for fn := range p.reachableFuncs(vf) {
+			if fn != vf && pkgRelOf(p, fn) == "verifier" {
+				cands = append(cands, fn)
+			}
+		}
+		sort.Slice(cands[1:], func(i, j int) bool { return cands[1+i].String() < cands[1+j].String() })
+		for _, fn := range cands {
+			for _, ls := range countedLoops(fn) {
+				usedAsIdx := false
+				for _, ref := range *ls.phi.Referrers() {
+					if c, ok := ref.(ssa.CallInstruction); ok && eventName(c) == "raft.LogStore.GetLog" {
+						usedAsIdx = true
+					}
 				}
+				if !usedAsIdx {
+					continue
+				}
+				found = true
+				ok := fieldLoadName(ls.init) == "Start" && fieldLoadName(ls.bound) == "End" && ls.op == token.LSS && ls.step == 1
+				why := ""
+				if ok && fn != vf {
+					// Start/End are read from one parameter, and every call of the helper passes the report's Range there
+					pi, pb := paramIndexOf(fn, fieldBase(ls.init)), paramIndexOf(fn, fieldBase(ls.bound))
+					if pi < 0 || pi != pb {
+						ok, why = false, "; Start/End are not fields of one parameter of "+funcDisplay(fn)
+					} else {
+						nCalls := 0
+						for _, c := range cands {
+							for _, b := range c.Blocks {
+								for _, ins := range b.Instrs {
+									if ci, isCall := ins.(ssa.CallInstruction); isCall && ci.Common().StaticCallee() == fn {
+										nCalls++
+										if fieldLoadName(ci.Common().Args[pi]) != "Range" {
+											ok, why = false, "; "+funcDisplay(c)+" calls it with something other than the report's Range"
+										}
+									}
+								}
+							}
+						}
+						if nCalls == 0 {
+							ok, why = false, "; no static call of "+funcDisplay(fn)+" found"
+						}
+					}
+				}
+				r.Check(ok, funcDisplay(vf)+":read-back-loop", posOf(p, ls.phi), "read-back iterates idx = Range.Start; idx < Range.End; idx++ (in "+funcDisplay(fn)+")",
+					fmt.Sprintf("the verifier's read-back loop is init=%s %s bound=%s step=%d%s; it must cover exactly [Range.Start, Range.End) (an off-by-one misses or double-counts an entry: false alarm or missed divergence)", fieldLoadName(ls.init), ls.op, fieldLoadName(ls.bound), ls.step, why))
 			}
-			if !usedAsIdx {
-				continue
-			}
-			found = true
-			ok := fieldLoadName(ls.init) == "Start" && fieldLoadName(ls.bound) == "End" && ls.op == token.LSS && ls.step == 1
-			r.Check(ok, funcDisplay(vf)+":read-back-loop", posOf(p, ls.phi), "read-back iterates idx = Range.Start; idx < Range.End; idx++",
-				fmt.Sprintf("the verifier's read-back loop is init=%s %s bound=%s step=%d; it must cover exactly [Range.Start, Range.End) (an off-by-one misses or double-counts an entry: false alarm or missed divergence)", fieldLoadName(ls.init), ls.op, fieldLoadName(ls.bound), ls.step))
 		}
 		if !found {
 			r.Fail(funcDisplay(vf)+":read-back-loop", p.Position(vf.Pos()), "no counted loop feeding GetLog found in the verifier's read-back")
@@ -833,6 +933,10 @@ func runFD08(p *Prog, r *RuleRun) {
 				case "raft.LogStore.GetLog":
 					return "READ", true // the read loop: stop, its effect on R is symbolic
 				}
+				if callee := x.Common().StaticCallee(); callee != nil && pkgRelOf(p, callee) == "verifier" &&
+					p.reaches(callee, func(ci ssa.CallInstruction) bool { return eventName(ci) == "raft.LogStore.GetLog" }) {
+					return "READ", true // the read loop in a helper
+				}
 			}
 			return "", false
 		}}
@@ -879,44 +983,130 @@ func runFD08(p *Prog, r *RuleRun) {
 			continue
 		}
 		bo, ok := ifi.Cond.(*ssa.BinOp)
-		if !ok || bo.Op != token.NEQ {
+		if !ok || (bo.Op != token.NEQ && bo.Op != token.EQL) {
 			continue
 		}
 		l, rr := fieldLoadName(bo.X), fieldLoadName(bo.Y)
 		if !(l == "ReadSum" && rr == "ExpectedSum" || l == "ExpectedSum" && rr == "ReadSum") {
 			continue
 		}
-		for _, ins := range b.Succs[0].Instrs {
-			if st, ok := ins.(*ssa.Store); ok {
-				if fv := fieldOfAddr(st.Addr); fv != nil && fv.Name() == "Err" {
-					if mi, ok := st.Val.(*ssa.MakeInterface); ok && strings.Contains(mi.X.Type().String(), "ErrChecksumMismatch") {
-						okRead = true
-					}
+		// the edge taken when the sums differ, and the one taken when they agree
+		diff, same := b.Succs[0], b.Succs[1]
+		if bo.Op == token.EQL {
+			diff, same = same, diff
+		}
+		if len(diff.Preds) != 1 {
+			continue
+		}
+		blamed, blamedWhenSame := false, false
+		for _, b2 := range vf.Blocks {
+			for _, ins := range b2.Instrs {
+				st, ok := ins.(*ssa.Store)
+				if !ok {
+					continue
+				}
+				fv := fieldOfAddr(st.Addr)
+				if fv == nil || fv.Name() != "Err" {
+					continue
+				}
+				mi, ok := st.Val.(*ssa.MakeInterface)
+				if !ok || !strings.Contains(mi.X.Type().String(), "ErrChecksumMismatch") {
+					continue
+				}
+				if diff.Dominates(b2) {
+					blamed = true
+				} else if b2 == same || (len(same.Preds) == 1 && same.Dominates(b2)) || reachesBlock(same, b2) && !reachesBlock(diff, b2) {
+					blamedWhenSame = true
 				}
 			}
+		}
+		// every path from the differing edge must pass a blame store: the blame block post-dominates the edge
+		if blamed && !blamedWhenSame && allPathsStoreMismatch(diff) {
+			okRead = true
 		}
 	}
 	r.Check(okRead, funcDisplay(vf)+":read-compare", p.Position(vf.Pos()), "storage blame iff ReadSum != ExpectedSum, reported as ErrChecksumMismatch",
 		"the read-back comparison `ReadSum != ExpectedSum -> ErrChecksumMismatch` is missing or altered: at-rest divergence goes unreported or intact ranges are blamed")
 	// Part 3: follower's written sum is zeroed iff the checkpoint's start differs from its own
 	okZero := false
-	uvLive := liveBlocks(uv)
-	for _, b := range uv.Blocks {
-		ifi, ok := b.Instrs[len(b.Instrs)-1].(*ssa.If)
-		if !ok || !uvLive[b] {
-			continue
+	zeroFns := []*ssa.Function{uv}
+	for fn := range p.reachableFuncs(uv) {
+		if fn != uv && pkgRelOf(p, fn) == "verifier" {
+			zeroFns = append(zeroFns, fn)
 		}
-		bo, ok := ifi.Cond.(*ssa.BinOp)
-		if !ok || bo.Op != token.NEQ {
-			continue
+	}
+	isDecodedStart := func(v ssa.Value) bool {
+		ex, ok := v.(*ssa.Extract)
+		if !ok || ex.Index != 0 {
+			return false
 		}
-		for _, ins := range b.Succs[0].Instrs {
-			if st, ok := ins.(*ssa.Store); ok {
-				if fv := fieldOfAddr(st.Addr); fv != nil && fv.Name() == "WrittenSum" {
-					if c, ok := st.Val.(*ssa.Const); ok && c.Int64() == 0 {
-						okZero = true
+		c, ok := ex.Tuple.(*ssa.Call)
+		return ok && c.Call.StaticCallee() != nil && pkgRelOf(p, c.Call.StaticCallee()) == "verifier" && c.Call.Signature().Results().Len() == 3 &&
+			len(c.Call.Args) == 1 && fieldLoadName(c.Call.Args[0]) == "Extensions"
+	}
+	var isOwnStart func(v ssa.Value, depth int) bool
+	isOwnStart = func(v ssa.Value, depth int) bool {
+		switch x := v.(type) {
+		case *ssa.Parameter:
+			b, ok := x.Type().Underlying().(*types.Basic)
+			return ok && b.Kind() == types.Uint64
+		case *ssa.Phi:
+			if depth > 3 {
+				return false
+			}
+			for _, e := range x.Edges {
+				if isOwnStart(e, depth+1) {
+					return true
+				}
+			}
+		}
+		return false
+	}
+	for _, fn := range zeroFns {
+		live := liveBlocks(fn)
+		for _, b := range fn.Blocks {
+			ifi, ok := b.Instrs[len(b.Instrs)-1].(*ssa.If)
+			if !ok || !live[b] {
+				continue
+			}
+			bo, ok := ifi.Cond.(*ssa.BinOp)
+			if !ok || (bo.Op != token.NEQ && bo.Op != token.EQL) {
+				continue
+			}
+			if !(isDecodedStart(bo.X) && isOwnStart(bo.Y, 0) || isDecodedStart(bo.Y) && isOwnStart(bo.X, 0)) {
+				continue
+			}
+			diff, same := b.Succs[0], b.Succs[1]
+			if bo.Op == token.EQL {
+				diff, same = same, diff
+			}
+			if len(diff.Preds) != 1 {
+				continue
+			}
+			zeroOnDiff, zeroElsewhere := false, false
+			for _, b2 := range fn.Blocks {
+				for _, ins := range b2.Instrs {
+					st, ok := ins.(*ssa.Store)
+					if !ok {
+						continue
+					}
+					fv := fieldOfAddr(st.Addr)
+					if fv == nil || fv.Name() != "WrittenSum" {
+						continue
+					}
+					if c, ok := st.Val.(*ssa.Const); !ok || c.Int64() != 0 {
+						continue
+					}
+					if diff.Dominates(b2) {
+						zeroOnDiff = true
+					} else if live[b2] {
+						zeroElsewhere = true
 					}
 				}
+			}
+			_ = same
+			if zeroOnDiff && !zeroElsewhere {
+				okZero = true
 			}
 		}
 	}
